@@ -59,6 +59,18 @@ def resume_configs(tier):
             if stored is not None:
                 cfg["stored"] = stored
             out.append(cfg)
+    # a compacted wrapper (inner offsets with holes) at base 50: positions before, inside and after the holes
+    logwg = [["base", 50], ["wgap", 1, [["a", "w0"], ["b", "w3"], ["c", "w4"]], [0, 3, 4]], ["p", "k5", "v5"],
+             ["p", "k6", "v6"]]
+    for magic, stored in itertools.product([0, 1], [None, 50, 51, 53, 54, 55]):
+        cfg = {"cluster": CLUSTER, "discovery": magic == 1, "log": logwg, "magic": magic, "start": "committed",
+               "group": True, "processor": "sync",
+               "consumer": {"buffer_size": 300, "auto_commit_every_n": 1, "auto_commit_every_ms": 0},
+               "script": [["start"]], "menu": {"crash": 1, "err": {"9": [14]}, "drop": True},
+               "timeout_ms": 2000, "horizon_s": 120}
+        if stored is not None:
+            cfg["stored"] = stored
+        out.append(cfg)
     return out
 
 
